@@ -77,11 +77,46 @@ def goalSafe (s : Proof) : Op → Prop
   | .addLineBefore id _ => targetOk s 0 id
   | .removeLine id => targetOk s 1 id
   | .setLine id _ _ _ => targetOk s 1 id
-  | _ => False
+  | .replaceId old _ => targetOk s 1 old
+  | .applyTactic _ _ => False
 
 theorem getLast?_of_map_sig (s s' : Proof) (h : s'.map sigOf = s.map sigOf) :
     (s'.getLast?).map sigOf = (s.getLast?).map sigOf := by
   rw [← List.getLast?_map, ← List.getLast?_map, h]
+
+theorem sigOf_replace (o n : IId) (i : Item) : sigOf (Item.replacePrev o n i) = sigOf i := by
+  cases i; simp [Item.replacePrev, sigOf, Item.rule, Item.th]
+
+theorem replaceList_eq_map (o n : IId) : ∀ l, replaceList o n l = l.map (Item.replacePrev o n)
+  | [] => by simp [replaceList]
+  | i :: is => by simp [replaceList, replaceList_eq_map o n is]
+
+/-- `replace_id` of a line other than the last top-level one keeps the last line's rule and sequent. -/
+theorem goal_preserved_replaceId (s s' : Proof) (old new : IId) (hs : targetOk s 1 old)
+    (h : replaceId s old new = .ok s') : (s'.getLast?).map sigOf = (s.getLast?).map sigOf := by
+  unfold replaceId at h
+  split at h
+  · rename_i s1 h1
+    match old, hs with
+    | [k], hs =>
+      simp [modifyAt] at h1
+      subst h1
+      have hlen : (replaceList [k] new s).length = s.length := by simp [replaceList_eq_map]
+      have a := goal_preserved_remove_line_top _ s' k (by rw [hlen]; simpa [targetOk] using hs) h
+      rw [a, replaceList_eq_map, List.getLast?_map]
+      cases s.getLast? <;> simp [sigOf_replace]
+    | i :: j :: rest, _ =>
+      have hd : ∃ rest', (i :: j :: rest).dropLast = i :: rest' := by cases rest <;> simp [List.dropLast]
+      obtain ⟨rest', hrest⟩ := hd
+      rw [hrest] at h1
+      have a := getLast?_of_map_sig _ _ (sig_modifyAt_nested _ _ _ _ _ h1)
+      unfold removeLine at h
+      split at h
+      · simp at h
+      · rw [hrest] at h
+        have b := getLast?_of_map_sig _ _ (sig_modifyAt_nested _ _ _ _ _ h)
+        rw [b, a]
+  · simp at h
 
 theorem goal_preserved_step (s s' : Proof) (op : Op) (hs : goalSafe s op) (h : step s op = .ok s') :
     (s'.getLast?).map sigOf = (s.getLast?).map sigOf := by
@@ -119,7 +154,9 @@ theorem goal_preserved_step (s s' : Proof) (op : Op) (hs : goalSafe s op) (h : s
       split at h
       · simp at h
       · rw [hrest] at h; exact getLast?_of_map_sig _ _ (sig_modifyAt_nested _ _ _ _ _ h)
-  | replaceId o n => exact absurd hs (by simp [goalSafe])
+  | replaceId o n =>
+    simp only [step] at h
+    exact goal_preserved_replaceId s s' o n hs h
   | applyTactic id new => exact absurd hs (by simp [goalSafe])
 
 /-- The precondition holds along the run. -/
